@@ -73,6 +73,9 @@ def _all():
     for a, b in ((2.5, 2.5004), (1000, 1000.04), (0.12341, 0.12344)):
         yield {"fam": "seq", "seq": [{"L": [[{"x": 1}, a], [{"x": 1}, a + 1]], "G": []}, {"L": [[{"x": 1}, b], [{"x": 1}, b + 1]], "G": []}]}
         yield {"fam": "seq", "seq": [{"L": [[{"x": 1, "y": 1}, b]], "G": [[{"y": -1}, 0]]}, {"L": [[{"x": 1, "y": 1}, a]], "G": [[{"y": -1}, 0]]}]}
+    # a relaxation that drops terms, followed by simplify / constructor on an equal list (results must not be shared)
+    for L in ([[{"x": 1, "y": 1}, 1], [{"x": 1}, 5], [{"x": -1}, 0]], [[{"x": 1, "y": -2}, 0], [{"x": 1}, 2], [{"y": 1}, 3]]):
+        yield {"fam": "relaxseq", "L": L}
     # contract level
     a_terms = grids.terms(["i"], [-1, 1], [0, 1, 2])
     g_terms = [t for t in grids.terms(["i", "o"], [-1, 0, 1], [0, 1, 2])]
@@ -93,7 +96,7 @@ def _all():
             yield {"fam": "v3", "L": L, "G": G}
 
 
-QUICK = ("base", "planted", "contract", "contract2", "seq")
+QUICK = ("base", "planted", "contract", "contract2", "seq", "relaxseq")
 
 
 def cases(tier, seed):
@@ -150,6 +153,17 @@ def run_case(case):
         return _run_contract(case)
     if case["fam"] == "contract2":
         return _run_contract(case, ins=["x", "y"])
+    if case["fam"] == "relaxseq":
+        L = plist(case["L"])
+        try:
+            L.elim_vars_by_relaxing(plist([]), pvars(["y"]), simplify=True)
+        except ValueError:
+            pass
+        r = run_case({"fam": "planted", "L": case["L"], "G": []})[0]
+        viol = r[3]
+        if viol is not None:
+            viol = dict(viol, sub="relaxseq", what="simplify after a relaxation of an equal list: " + viol["what"])
+        return [(r[0], True, r[2], viol) + tuple(r[4:])]
     if case["fam"] == "seq":
         out = []
         for k, c in enumerate(case["seq"]):
